@@ -6,7 +6,7 @@ import wire
 from props.common import quiet_ccp, exc_class, REPO
 
 ID = "C08"
-LEAN_MODULES = ["Ccp.Props.C08"]
+LEAN_MODULES = ["Ccp.Props.C08", "Ccp.Props.RxC08"]
 RULE = ("statement trees (depth 0..6, fan-out 0..5, first statement level may be empty) whose words are drawn from the "
         "whitespace-separated tokens of the junos and F5 fixture files under tests/fixtures/configs (no Palo-Alto fixture exists "
         "in the repo; its set-style words are covered by the hand list) plus a hand list ('[', ']', 'a:80', '1.2.3.4/24', "
@@ -42,6 +42,7 @@ LEVEL_NOTE = ("Trusted: Lean kernel; axioms propext/Classical.choice/Quot.sound 
               "non-empty visible ASCII without braces, the first word of a statement does not start with a quote (F31), the last "
               "word does not end with ';'; for the parent theorem additionally no statement starts with '#' (a '#' line under a "
               "deeper line is a root by C02's legacy comment exception: F32). Proved about the model, measured against the code.")
+LEVEL_NOTE += (" " + "regexes_as_modelled (Ccp.RxC08): the arguments of the pyparsing calls reached from BraceParse.__init__ (Word(printables, exclude_chars='{}'), White(' '), nested_expr(opener='{', closer='}', content=..) without ignore_expr, parse_string('{'+txt+'}') without parse_all), the ';' test, and the constants of the installed pyparsing (printables, DEFAULT_WHITE_CHARS, the two quoted_string regexes, the ignore_expr / parse_all defaults) are re-read on every run and proved equal to what Model/Brace.lean was written for.")
 EXHAUSTIVE = {"quick": False, "thorough": False}
 ASSUMPTIONS = [
     "pyparsing 3.1.1 nested_expr/quoted_string/expandtabs behave as the hand-written tokenizer (measured, not proved)",
